@@ -1,0 +1,27 @@
+//go:build verif
+
+// Package verifhooks re-exports, for the external verification harness only
+// (build tag "verif"), entry points of internal packages that cannot be
+// imported from another module. Add-only; not compiled into normal builds.
+package verifhooks
+
+import (
+	"context"
+	"crypto"
+
+	"github.com/sassoftware/relic/v8/config"
+	"github.com/sassoftware/relic/v8/internal/signinit"
+	"github.com/sassoftware/relic/v8/lib/certloader"
+	"github.com/sassoftware/relic/v8/signers"
+	"github.com/sassoftware/relic/v8/token"
+)
+
+// SigninitInitKey is signinit.InitKey.
+func SigninitInitKey(ctx context.Context, tok token.Token, keyName string) (*certloader.Certificate, *config.KeyConfig, error) {
+	return signinit.InitKey(ctx, tok, keyName)
+}
+
+// SigninitInit is signinit.Init.
+func SigninitInit(ctx context.Context, mod *signers.Signer, tok token.Token, keyName string, hash crypto.Hash, flags *signers.FlagValues) (*certloader.Certificate, *signers.SignOpts, error) {
+	return signinit.Init(ctx, mod, tok, keyName, hash, flags)
+}
